@@ -722,7 +722,13 @@ impl PayMonitor {
 					}
 				}
 			},
-			Event::PaymentClaimable { payment_hash, amount_msat, claim_deadline, .. } => {
+			Event::PaymentClaimable { payment_hash, amount_msat, claim_deadline, counterparty_skimmed_fee_msat, .. } => {
+				// (a recipient that accepts underpaying HTLCs is shown what it received; the sender's intention
+				// includes what the previous hop withheld)
+				let intended_msat = *amount_msat + *counterparty_skimmed_fee_msat;
+				if *counterparty_skimmed_fee_msat > 0 {
+					v.rep.count("c04_claimable_with_skimmed_fee");
+				}
 				let ri = match w.regs.iter().position(|r| r.hash == *payment_hash && r.dst == node) {
 					Some(r) => r,
 					None => {
@@ -746,14 +752,14 @@ impl PayMonitor {
 							v.violation("C04", "I1-complete", "PaymentClaimable reports more than the authentic parts that have arrived", format!("node{} reg {}: reported {}, arrived {}", node, ri, amount_msat, sum_valid));
 						}
 						if let Some(min) = reg.min_value {
-							if *amount_msat < min {
+							if intended_msat < min {
 								v.violation("C04", "I1-complete", "PaymentClaimable for less than the amount committed to at registration", format!("node{} reg {}: reported {}, registered {}", node, ri, amount_msat, min));
 							}
 						}
 						// some group of arrived parts that agree on the declared total must reach that total
 						let ok_group = totals.iter().any(|t| {
 							let sum: u64 = valid.iter().filter(|i| self.origin_of(**i).map(|pi| w.payments[pi].declared_total == *t).unwrap_or(false)).map(|i| self.hs[*i].amt).sum();
-							sum >= *t && *amount_msat >= *t && *amount_msat <= sum
+							sum + *counterparty_skimmed_fee_msat >= *t && intended_msat >= *t && *amount_msat <= sum
 						});
 						if !ok_group {
 							v.violation("C04", "I1-complete", "PaymentClaimable although no set of arrived parts agreeing on the declared total reaches that total", format!("node{} reg {}: reported {}, declared totals {:?}, arrived {}", node, ri, amount_msat, totals, sum_valid));
